@@ -103,7 +103,7 @@ func (m *Mocker) Mock(w io.Writer, namePairs ...string) error {
 	}
 
 	// All imports are registered now, their qualifiers are final.
-	m.registry.ResolveShadowing()
+	m.registry.ResolveShadowing(template.Exported)
 
 	data.Imports = m.registry.Imports()
 
